@@ -81,6 +81,15 @@ def foreign_sources(f, declared='cls'):
             if 'get_subclasses' in it or it in ('subclasses',):
                 out.setdefault(n.target.id, []).append(
                     (n, 'member of get_subclasses() selected by the request'))
+    # a foreign class copied into another local (``found = candidate``)
+    for _ in range(3):
+        for n in walk_no_defs(f.node):
+            if isinstance(n, ast.Assign) and isinstance(n.value, ast.Name) \
+                    and n.value.id in out:
+                for t in n.targets:
+                    if isinstance(t, ast.Name) and t.id not in out and \
+                            t.id != declared:
+                        out[t.id] = [(n, out[n.value.id][0][1])]
     return out
 
 
